@@ -193,8 +193,15 @@ HistTail == \E x \in HistComposeDim, o \in {"compose", "compose_prune"} :
     /\ h' = (IF o = "compose" THEN Compose(h, BuildTree(x, K, "dfs")) ELSE ComposePruned(h, BuildTree(x, K, "dfs"))) /\ op' = o /\ aff' = None
     /\ hist' = [hist EXCEPT !.steps = Append(hist.steps, HStep(o, x, NoAff))]
     /\ stage' = StageOf(Depth + 1) /\ UNCHANGED sched
+\* the same with apply_func of a map into R^1
+HistTailAff == \E a \in {Aff(<<<<1, 1>>>>, <<3>>)} :
+    /\ MODE = "history" /\ Depth = NG /\ op = "eliminate" /\ OutDims(h) \subseteq {2}
+    /\ f' = [abs |-> f.abs, lay |-> "dfs", t |-> h] /\ g' = None
+    /\ h' = ApplyFunc(h, a) /\ op' = "apply_func" /\ aff' = a
+    /\ hist' = [hist EXCEPT !.steps = Append(hist.steps, HStep("apply_func", None, a))]
+    /\ stage' = StageOf(Depth + 1) /\ UNCHANGED sched
 HistNext ==
-    \/ HistTail
+    \/ HistTail \/ HistTailAff
     \/ HistDo("eliminate", None, NoAff, Eliminate(h))
     \/ HistDo("reduce", None, NoAff, Reduce(h))
     \/ HistDo("neg", None, NoAff, NegTree(h))
